@@ -151,25 +151,29 @@ def formParse (s : Str) : List (Str × Str) :=
 /-! ## Parameters: code outside ruma -/
 
 /-- `serde_html_form::to_string` / `from_str` below the level of struct fields: a list of
-key/value pairs to the query string and back. `text` are the byte strings that are Rust `String`s;
-the law is the only fact about the two functions the theorems use. `no_hash`: the produced query
-contains no `#` (so `http::Uri` does not cut a fragment off it). -/
+key/value pairs to the query string and back. `text` are the byte strings that are Rust `String`s. -/
 structure FormCodec where
   ser : List (Str × Str) → Str
   parse : Str → List (Str × Str)
   text : Str → Prop
-  law : ∀ ps : List (Str × Str), (∀ p ∈ ps, text p.1 ∧ text p.2) → parse (ser ps) = ps
-  no_hash : ∀ ps : List (Str × Str), 35 ∉ ser ps
+
+/-- The only facts about the two functions the theorems use. `law`: what was written is read
+back. `no_hash`: the produced query contains no `#` (so `http::Uri` does not cut a fragment off). -/
+structure FormCodec.Lawful (F : FormCodec) : Prop where
+  law : ∀ ps : List (Str × Str), (∀ p ∈ ps, F.text p.1 ∧ F.text p.2) → F.parse (F.ser ps) = ps
+  no_hash : ∀ ps : List (Str × Str), 35 ∉ F.ser ps
 
 /-- `serde_json::to_writer` (`none`: the serializer reports an error) and `serde_json::from_slice`
-as a struct visitor sees the text: objects as their entries in text order, duplicates included.
-Laws: what was written is read back; nothing is written as zero bytes; `{}` is the empty object. -/
+as a struct visitor sees the text: objects as their entries in text order, duplicates included. -/
 structure JsonCodec where
   ser : JVal → Option Str
   parse : Str → Option JVal
-  law : ∀ v b, ser v = some b → parse b = some v
-  ser_ne : ∀ v b, ser v = some b → b ≠ []
-  empty_obj : parse (bs "{}") = some (.obj [])
+
+/-- What was written is read back; nothing is written as zero bytes; `{}` is the empty object. -/
+structure JsonCodec.Lawful (J : JsonCodec) : Prop where
+  law : ∀ v b, J.ser v = some b → J.parse b = some v
+  ser_ne : ∀ v b, J.ser v = some b → b ≠ []
+  empty_obj : J.parse (bs "{}") = some (.obj [])
 
 /-- `http::Uri::try_from(String)`, evaluated inside `http::request::Builder`. -/
 structure HttpLib where
@@ -904,6 +908,16 @@ def nData : Codec JVal :=
       match fieldFromObj o (bs "x", bStr), fieldFromObj o (bs "ys", bVecStr) with
       | some x, some ys => some (.obj (bodyEntries [(bs "x", bStr), (bs "ys", bVecStr)] [x, ys]))
       | _, _ => none
+    | _ => none⟩
+
+/-- The hand-written body serde of the synthetic response `g_man` (`manual_body_serde`): the one
+body field `s: String` is written as `{"wrap": <s>}`. -/
+def mWrap : Codec JVal :=
+  ⟨fun j => match j with
+    | .obj o =>
+      match fieldFromObj o (bs "wrap", bStr) with
+      | some (some x) => some (.obj [(bs "wrap", x)])
+      | _ => none
     | _ => none⟩
 
 end Ty
